@@ -105,6 +105,7 @@ def handle (s : S) (i : Nat) (j : Json) : S × List Json :=
             (s', if vs.isEmpty then [verdictOk i] else vs)
       else (s', [verdictBad i "c17.case kind"])
     | _, _, _, _, _, _, _ => (s, [verdictBad i "c17.case fields"])
+  | some "c17.note" => (s, [verdictOk i])  -- recorded, never judged (messages outside the letter of the property)
   | some "stats" => (s, [])
   | _ => (s, [verdictBad i "unknown t"])
 
